@@ -443,6 +443,30 @@ pub fn corpus() -> Vec<(T, T)> {
         (call(62, vec![q(1)]), T::nil()),
         (call(65, vec![q(1)]), T::nil()),
     ];
+    // operands computed at run time: an empty / zero / padded / small atom that is a substring view or a
+    // concat result (never the interned nil, never an inline small atom) in every operand position of every
+    // operator that inspects values — the reference sees bytes only
+    {
+        let hello = || quote(atom(b"hello"));
+        let views: Vec<T> = vec![
+            call(12, vec![hello(), q(2), q(2)]),                                   // empty view
+            call(12, vec![hello(), q(5)]),                                         // empty view, two-argument form
+            call(12, vec![quote(atom(&[0x68, 0x00, 0x6c, 0x6c, 0x6f])), q(1), q(2)]), // 0x00
+            call(12, vec![quote(atom(&[0x68, 0x00, 0x05, 0x6c, 0x6f])), q(1), q(3)]), // 0x0005
+            call(12, vec![quote(atom(&[0x68, 0x05, 0x6c, 0x6c, 0x6f])), q(1), q(2)]), // 5
+            call(14, vec![quote(atom(&[0x00])), quote(atom(&[0x80]))]),            // 0x0080 by concat
+            call(14, vec![]),                                                      // empty concat
+        ];
+        for (op, k) in [(3u8, 3usize), (32, 1), (33, 1), (33, 2), (34, 1), (34, 2), (16, 2), (17, 2), (18, 2), (19, 2), (20, 2), (21, 2), (10, 2), (9, 2),
+                        (13, 1), (11, 2), (14, 2), (24, 2), (25, 2), (26, 2), (27, 1), (22, 2), (23, 2), (7, 1), (4, 2)] {
+            for pos in 0..k {
+                for v in &views {
+                    let args: Vec<T> = (0..k).map(|i| if i == pos { v.clone() } else { q(7) }).collect();
+                    c.push((call(op, args), T::nil()));
+                }
+            }
+        }
+    }
     // shifts at the limits, substr index rules
     for s in [65535i128, 65536, -65535, -65536, 1 << 31, -(1 << 31) - 1] {
         c.push((call(22, vec![q(3), q(s)]), T::nil()));
